@@ -424,6 +424,22 @@ def _planted_oracle(kind_tokens):
                 continue
             imp = ur.impl or ""
             want = kind_tokens[pl[0]]
+            # "the missing type is named": a type reported as having no provider must indeed have no source in the program as written
+            u_ = ur.u
+            inv = {n: td for td, n in getattr(u_, "tids", {}).items()}
+            for t in imp.split()[1:]:
+                if t.startswith("noprov:") and not getattr(ur, "ambiguous", False):
+                    try:
+                        td = inv.get(int(t.split(":")[1]))
+                    except ValueError:
+                        td = None
+                    if td is not None and (td in u_.src or td in u_.inj["args"]):
+                        from . import e2e_eval as EV
+                        fails.append({"stream": "e2e-planted", "request": ur.request, "impl": imp,
+                                      "why": ["wire reports no provider for %s, a type that the build set does provide (planted: %s): %s"
+                                              % (td, pl[1], " ".join(ur.wire_errors)[:300])],
+                                      "program": ur.prog.name, "files": EV.G.materialise(ur.prog)})
+                        break
             if imp.startswith("ok") or not any(t.startswith(want) for t in imp.split()[1:]):   # want: prefix or tuple of prefixes
                 from . import e2e_eval as EV
                 fails.append({"stream": "e2e-planted", "request": ur.request, "impl": imp,
